@@ -91,6 +91,7 @@ package db
 //@   ensures [spill] err == nil && l > maxInPagePayload ==> r0.Payload == c[:local_size(l, pageSize, maxInPagePayload)]
 //@   ensures [ovfl] err == nil && l > maxInPagePayload ==> r0.Overflow != 0 && r0.Overflow == zx32(be32(mem(c), off(c) + local_size(l, pageSize, maxInPagePayload)))
 //@   ensures [wf] err == nil ==> 0 <= r0.Length && (r0.Overflow == 0 ==> r0.Length <= len(r0.Payload)) && (r0.Overflow != 0 ==> len(r0.Payload) < r0.Length) && 0 <= r0.Overflow && r0.Overflow <= 4294967295
+//@   ensures [room] err == nil ==> reg(r0.Payload) == reg(c) && off(r0.Payload) == off(c) && cap(r0.Payload) == cap(c)
 //@   ensures [accept-inline] 0 <= l && l <= maxInPagePayload && l <= len(c) ==> err == nil
 //@   ensures [accept-spill] l > maxInPagePayload && len(c) >= local_size(l, pageSize, maxInPagePayload) + 4 && be32(mem(c), off(c) + local_size(l, pageSize, maxInPagePayload)) != 0 ==> err == nil
 
